@@ -15,13 +15,20 @@ PointsOK(pts) == /\ Len(pts) \in 1..MaxPts
                  /\ \A k \in 1..Len(pts) : Len(pts[k]) = Len(pts[1]) /\ \A i \in 1..Len(pts[k]) : CoordOK(pts[k][i])
 RefOK(pts, ref) == Len(ref) = Len(pts[1]) /\ (\A i \in 1..Len(ref) : CoordOK(ref[i])) /\ WeaklyDominatedRef(pts, ref)
 
+Case2DOK(e) ==     \* _solve_hssp on two objectives with integer coordinates in the thousands
+  /\ Len(e.pts) \in 1..14 /\ \A i \in 1..Len(e.pts) : Len(e.pts[i]) = 2 /\ \A c \in 1..2 : e.pts[i][c] \in -500..4000
+  /\ Len(e.ref) = 2 /\ (\A c \in 1..2 : e.ref[c] \in 0..4000) /\ WeaklyDominatedRef(e.pts, e.ref) /\ e.k \in 1..Len(e.pts)
+  /\ Hssp2DAnswerOK(e.pts, e.k, e.ref, e.ret)
+
 CaseOK(e) ==
-  /\ PointsOK(e.pts)
+  /\ e.op # "hssp2" => PointsOK(e.pts)
+  /\ e.op = "hssp2" => Case2DOK(e)
   /\ CASE e.op = "hv"    -> RefOK(e.pts, e.ref) /\ e.ret \in HVAllowed(e.pts, Idx(e.pts), e.ref)
        [] e.op = "rank"  -> RankAnswerOK(e.pts, e.pen, e.nb, e.ret)
        [] e.op = "front" -> /\ Len(e.ret) = Len(e.pts)
                             /\ \A i \in Idx(e.pts) : (e.ret[i] = 1) <=> (i \in FrontIdx(e.pts, Idx(e.pts)))
        [] e.op = "hssp"  -> RefOK(e.pts, e.ref) /\ e.k \in 1..Len(e.pts) /\ HsspAnswerOK(e.pts, e.k, e.ref, e.ret)
+       [] e.op = "hssp2" -> TRUE      \* judged below (large 2-D integer coordinates, exact sweep oracle)
        [] OTHER -> FALSE
 
 vars == <<tix, l>>
